@@ -7,52 +7,58 @@ HERE = os.path.dirname(os.path.dirname(os.path.abspath(__file__)))
 
 P = {
  "C01": ("5 C01", "CFG edge-dominance of framing/grammar guards; finite decision tables (transfer-coding loop, version range) by abstract evaluation; regex->charset comparison with RFC 9110 tchar/field tables; lenient-primitive lint (K10)",
-         "Decides, for every path through Message.set_body_reader / parse_headers / parse_request_line / ChunkedReader.parse_chunk_size / parse_chunked, that the reject guards the statement lists dominate every body-reader construction, header acceptance and int() conversion; that TOKEN_RE/VERSION_RE/INVALID_AND_DANGEROUS equal the RFC tables and are applied with fullmatch; that no str.strip()/split()/int()/re.match more lenient than the grammar touches wire data; that every relaxation hangs on its documented-unsafe switch with a safe default. NOT decided: equality of body bytes and end offset with a reference reading for all byte strings."),
+         "Decides, for every path through Message.set_body_reader / parse_headers / parse_request_line / ChunkedReader.parse_chunk_size / parse_chunked, that the reject guards the statement lists dominate every body-reader construction, header acceptance and int() conversion; that TOKEN_RE/VERSION_RE/INVALID_AND_DANGEROUS equal the RFC tables and are applied with fullmatch; that no str.strip()/split()/int()/re.match more lenient than the grammar touches wire data; that every relaxation hangs on its documented-unsafe switch with a safe default. NOT decided: equality of body bytes and end offset with a reference reading for all byte strings. Also (aliases of C06.R1-3/C07.R1): buffer discipline of the chunk readers and the drain of the previous body."),
  "C02": ("5 C02", "finite decision tables by abstract evaluation of Response.is_chunked/should_close/default_headers/write and Message.should_close over all field valuations; CFG dominance (send_headers first, keep-alive exit guarded by should_close()); who-may-write on Response.chunked; chunk-size emitter inventory",
-         "Decides the framing predicate (S1-S4 of RFC 9112 6.3/9) row by row, the write() truncation/empty-chunk/accounting table, single source of truth for chunkedness, one terminator, head before body, sibling agreement of the three handle_request implementations and the parser's stop-after-close. NOT decided: byte-exact equality of the decoded body; socket.sendfile behaviour. Known finding D8 (HEAD/1xx/204/304 body bytes with keep-alive) is reported as KNOWN-FINDING."),
+         "Decides the framing predicate (S1-S4 of RFC 9112 6.3/9) row by row, the write() truncation/empty-chunk/accounting table, single source of truth for chunkedness, one terminator, head before body, sibling agreement of the three handle_request implementations and the parser's stop-after-close. NOT decided: byte-exact equality of the decoded body; socket.sendfile behaviour. Known finding D8 (HEAD/1xx/204/304 body bytes with keep-alive) is reported as KNOWN-FINDING. Also: an application error is answered with an error page only while no head was sent; start_response(exc_info) resets length/upgrade state; FileWrapper ends at EOF; every writer of response_length/must_close is inventoried."),
  "C03": ("5 C03", "table agreement (SIGNALS vs handle_* under run()'s dispatch pattern); must-pass-through on the idle branch; CFG reachability with exception edges (forked child never returns); who-may-call (fork/waitpid/kill/WORKERS insert); exit-code table agreement; snapshot-iteration rule for the SIGCHLD-mutated dict",
-         "Decides the mechanisms that make convergence possible: every signal has a handler, idle iteration = sleep/murder/manage, child branch of fork cannot return, boot-failure codes agree between child and reaper and reach halt(), pop->tmp.close pairing, reap loop left only on 'no child', oldest-first retirement with monotone ages, no live iteration of WORKERS in master context. NOT decided: convergence under all SIGCHLD interleavings."),
+         "Decides the mechanisms that make convergence possible: every signal has a handler, idle iteration = sleep/murder/manage, child branch of fork cannot return, boot-failure codes agree between child and reaper and reach halt(), pop->tmp.close pairing, reap loop left only on 'no child', oldest-first retirement with monotone ages, no live iteration of WORKERS in master context. NOT decided: convergence under all SIGCHLD interleavings. Also: `booted` is set last before run(); reap_workers always reaps; manage_workers retires on every pass."),
  "C04": ("5 C04", "CFG order/dominance on Arbiter.stop/halt; abstract evaluation of the stop signal (graceful<=>TERM); handler-body effect check of Worker.handle_exit; sibling check of worker run loops (alive loop + graceful_timeout-bounded drain); control-dependence of exits on `alive`",
-         "Decides: listeners closed before workers are signalled, TERM vs QUIT, bounded wait, final SIGKILL on every path, halt order and exit status, SIGTERM handler only clears `alive`, siginterrupt(SIGTERM, False), every run loop drains within graceful_timeout, no `alive` test abandons a request already read, close_sockets closes all / unlinks iff asked. NOT decided: that a response in flight really arrives; timing."),
+         "Decides: listeners closed before workers are signalled, TERM vs QUIT, bounded wait, final SIGKILL on every path, halt order and exit status, SIGTERM handler only clears `alive`, siginterrupt(SIGTERM, False), every run loop drains within graceful_timeout, no `alive` test abandons a request already read, close_sockets closes all / unlinks iff asked. NOT decided: that a response in flight really arrives; timing. Also: gevent drain table, pool shutdown cancels nothing in flight; reload re-creates the pid file (C17.R3/R4 evaluated here)."),
  "C05": ("5 C05", "exception-ladder analysis (landing handler per exception class, following unconditional re-raises, shadowed-clause detection over the repo+builtin class hierarchy); CFG reachability handler->dispatch; definite assignment modulo the isinstance tuple; template/argument agreement of write_error",
-         "Decides: every exception class raised by parsing/dispatch lands in the right clause (error reply vs quiet close), nothing escapes handle(), the client socket is released on every exit, no path from an except clause back to handle_request, only handle_request calls the app with the request parsed in the same iteration, handle_error is total over its tuple, the error page carries Content-Length of its very body, Connection: close, escaped message and literal status/reason. NOT decided: exact reply bytes for every input."),
+         "Decides: every exception class raised by parsing/dispatch lands in the right clause (error reply vs quiet close), nothing escapes handle(), the client socket is released on every exit, no path from an except clause back to handle_request, only handle_request calls the app with the request parsed in the same iteration, handle_error is total over its tuple, the error page carries Content-Length of its very body, Connection: close, escaped message and literal status/reason. NOT decided: exact reply bytes for every input. Also: stale request objects are not reused across keep-alive iterations; the peer address is normalised before it is logged; handle_error's optional request slot."),
  "C06": ("5 C06", "buffer-discipline analysis (K11): accumulate-then-search (search receiver refreshed after every read on all CFG paths), top-up-loop dominance for k-byte comparisons, delimiter arithmetic over normalised slice offsets, split-pair conservation with co-location and use of the residue; layering who-may-call; Unreader.read decision table",
          "Decides structural necessary conditions of segmentation independence: no stale delimiter search after a read, k-byte terminator comparisons are topped up or re-evaluated, residue = index + len(delimiter), every prefix slice has a co-located complementary suffix that is pushed back/returned, only Unreader touches the socket, pushed-back bytes are served first. NOT decided: equality of observations over all segmentations."),
  "C07": ("5 C07", "CFG dominance (drain loop before next message; clamp before reads), outcome-set check of Request.set_body_reader, accounting dominance in LengthReader.read, typestate of ChunkedReader.parser, who-may-call for Body refills",
-         "Decides: the previous body is drained before the next request is parsed, a request never keeps an EOFReader, LengthReader clamps to the remaining length / decrements by exactly what it returns / returns the bounded prefix / does not read at zero, the chunk parser is retired at the end and trailers are consumed after the zero chunk, Body refills only through its reader. NOT decided: io.BytesIO equivalence of read/readline/readlines for all call sequences."),
+         "Decides: the previous body is drained before the next request is parsed, a request never keeps an EOFReader, LengthReader clamps to the remaining length / decrements by exactly what it returns / returns the bounded prefix / does not read at zero, the chunk parser is retired at the end and trailers are consumed after the zero chunk, Body refills only through its reader. NOT decided: io.BytesIO equivalence of read/readline/readlines for all call sequences. Also: buffers whose fill level is read through tell() are created empty."),
  "C08": ("5 C08", "finite decision tables by abstract evaluation (forwarded_allow_ips gate, underscore header policy, PROXY access check) over peer kinds x allow lists x modes; who-may-read of gated settings; CFG guard dominance for scheme stores and PROXY parsing; provenance of REMOTE_ADDR/SCRIPT_NAME; keep-alive carry rule for proxy_protocol_info",
          "Decides tables A.3/A.4 row by row, that secure-scheme/forwarder settings are read only behind the gate, scheme changes only for gated headers (first one wins, conflicts raise), PROXY line only when enabled/first request/allowed peer, REMOTE_ADDR from the accepted peer with the PROXY override last, SCRIPT_NAME only from os.environ or a header literally named SCRIPT_NAME, and that every multi-request handler restores PROXY info from state that outlives a request. NOT decided: value-level environ equality."),
  "C09": ("5 C09", "field-based flow (K8): every non-literal write to a Response field that is formatted into the head must be dominated by a fullmatch validate-or-raise whose class excludes CR/LF/NUL; regex->charset equality with RFC field-content; hop-by-hop decision table; start_response restart table",
-         "Decides: status, header names and values are validated before they are stored where send_headers formats them, HEADER_VALUE_RE == HTAB SP VCHAR obs-text, names are tokens, type checks first, Response.headers grows only in process_headers, nothing is sent in start_response, hop-by-hop headers dropped (websocket upgrade reviewed), PEP 3333 restart rules. NOT decided: byte-for-byte head equality."),
+         "Decides: status, header names and values are validated before they are stored where send_headers formats them, HEADER_VALUE_RE == HTAB SP VCHAR obs-text, names are tokens, type checks first, Response.headers grows only in process_headers, nothing is sent in start_response, hop-by-hop headers dropped (websocket upgrade reviewed), PEP 3333 restart rules. NOT decided: byte-for-byte head equality. The bytes send_headers hands to the socket are evaluated for a concrete Response (default lines + one `name: value CRLF` per header + CRLF, latin-1); start_response(exc_info) replaces, not appends."),
  "C10": ("5 C10", "CFG guard dominance (listener close/rebind only under old_address != cfg.address), order of reload steps, who-may-touch LISTENERS, shared rules C03.R6 / C04.R2-R3 / C03.R1 evaluated under this property",
-         "Decides: listeners survive a reload unless the address changed, app.reload -> setup -> spawn cfg.workers -> manage_workers, a fresh Config per reload, new workers built from the refreshed fields, oldest-first retirement, graceful worker exit, HUP dispatch. NOT decided: that no client is refused at any timing."),
+         "Decides: listeners survive a reload unless the address changed, app.reload -> setup -> spawn cfg.workers -> manage_workers, a fresh Config per reload, new workers built from the refreshed fields, oldest-first retirement, graceful worker exit, HUP dispatch. NOT decided: that no client is refused at any timing. Also: every listener is shut down exactly under the address-changed guard; setup() stores are unconditional."),
  "C11": ("5 C11", "clock agreement (writer vs scanner call targets), finite decision table of murder_workers (elapsed x timeout x aborted -> signals, aborted'), must-pass-through of notify() per loop iteration, explicit-bound check on blocking calls inside heartbeat loops, super().notify() chain",
          "Decides: one clock for heartbeat and scan (and for keep-alive deadlines), escalation table A.6 incl. timeout 0 and stat errors, every worker loop beats on every iteration with bounded blocking in between, workers get timeout/2, kills go through kill_worker and are followed by manage_workers. NOT decided: timing bounds, false kills by scheduling; notes the literal 1.0 s beat period."),
  "C12": ("5 C12", "finite decision tables by abstract evaluation (request-line limit complete/incomplete, limit clamps, field count, field size) ; must-pass-through (every consumed field is counted); capped-accumulation rule on every accumulate-until-delimiter loop",
-         "Decides table A.8 row by row with the documented comparators and 0 = unlimited, that every field consumed by the loop increases the counted quantity, and that each delimiter-waiting loop has a configuration-derived cap that raises. Known finding D10 (chunk-size line and trailer section uncapped) is reported as KNOWN-FINDING. NOT decided: end-to-end boundaries for all values; process memory."),
+         "Decides table A.8 row by row with the documented comparators and 0 = unlimited, that every field consumed by the loop increases the counted quantity, and that each delimiter-waiting loop has a configuration-derived cap that raises. Known finding D10 (chunk-size line and trailer section uncapped) is reported as KNOWN-FINDING. NOT decided: end-to-end boundaries for all values; process memory. Also: every size-checked quantity is the one accumulated; generic unbounded-accumulation rule over the parser layer."),
  "C13": ("5 C13", "lockset rule over _keep / poller registration (fields inferred from the code's own locking, frozen); pairing rule nr_conns +-1 <-> TConn create/close in the same block; full path enumeration of finish_request (exactly one of re-arm / release); CFG dominance (unregister/remove before enqueue; capacity gate); expiry decision table",
-         "Decides: every mutation of the protected fields after the pool exists is under self._lock and the lock is not held across select/wait/handlers; increments/decrements are paired with creation/close; finish_request re-arms xor releases on every path; a connection handed to a thread is neither registered nor queued; select only below capacity; keep-alive admission bounded; expiry iff deadline-now <= 0 from the oldest end with the deadline's clock. NOT decided: liveness, leak freedom over all interleavings."),
+         "Decides: every mutation of the protected fields after the pool exists is under self._lock and the lock is not held across select/wait/handlers; increments/decrements are paired with creation/close; finish_request re-arms xor releases on every path; a connection handed to a thread is neither registered nor queued; select only below capacity; keep-alive admission bounded; expiry iff deadline-now <= 0 from the oldest end with the deadline's clock. NOT decided: liveness, leak freedom over all interleavings. Also: the keep-alive deadline is armed where the connection goes idle and nowhere else."),
  "C14": ("5 C14", "CFG guard dominance on reexec; writer/reader table agreement of the environment hand-off (keys, separator, mode); must-pass of set_inheritable(True); who-may-call close_on_exec on listeners; finite decision table of the unlink decision (pids in {0,a,b} x systemd x reuse_port); pid-file choreography guards",
-         "Decides: fork only when no upgrade is pending and not an un-promoted new master, hand-off keys written == keys read with the same separator and the right mode, listeners stay inheritable, only workers mark them close-on-exec, unlink iff no other master/systemd/reuse_port (table A.5), UnixSocket removes a path only when binding itself, '.2' suffix iff started by an old master, promotion only when orphaned and forgets the parent, reexec_pid reset when that child is reaped. NOT decided: no refused connection during the upgrade."),
+         "Decides: fork only when no upgrade is pending and not an un-promoted new master, hand-off keys written == keys read with the same separator and the right mode, listeners stay inheritable, only workers mark them close-on-exec, unlink iff no other master/systemd/reuse_port (table A.5), UnixSocket removes a path only when binding itself, '.2' suffix iff started by an old master, promotion only when orphaned and forgets the parent, reexec_pid reset when that child is reaped. NOT decided: no refused connection during the upgrade. Also: boot-failure exit codes stop the master only for workers; a new master is always reaped."),
  "C15": ("5 C15", "provenance signatures (normalised expressions of each environ key vs the CGI/PEP 3333 table); header-mapping table by abstract evaluation; codec-discipline lint (every wire<->text conversion names latin-1; no latin-1 text into implicit-UTF-8 APIs); guard dominance before urlsplit; slice arithmetic of the '//' workaround",
          "Decides: REQUEST_METHOD/RAW_URI/QUERY_STRING/SERVER_PROTOCOL/CONTENT_*/HTTP_*/PATH_INFO/SCRIPT_NAME/url_scheme come from exactly the named request fields, repeated fields joined in order, PATH_INFO = latin1(percent-decode(path minus checked prefix)), latin-1 discipline, control characters rejected before urlsplit, workaround removes what it added. NOT decided: comparison with an independent mapping for all targets."),
  "C16": ("5 C16", "declarative table extraction of all Setting subclasses (name/cli/action/type/const/validator/default compatibility); literal check of add_option(dest, default=None); provenance-classified order of cfg.set sites in load_config; handler analysis (no clause on the way from cfg.set to do_load_config returns normally); validators' except clauses must raise",
-         "Decides: the settings table is consistent, an unmentioned flag is None, sources are applied framework < file < GUNICORN_CMD_ARGS < CLI with None skipped and one config file chosen CLI > env > default, errors from cfg.set stop start-up with a non-zero exit, validators never swallow a rejection. NOT decided: effective value per value pair (argparse run time); derived Config properties."),
+         "Decides: the settings table is consistent, an unmentioned flag is None, sources are applied framework < file < GUNICORN_CMD_ARGS < CLI with None skipped and one config file chosen CLI > env > default, errors from cfg.set stop start-up with a non-zero exit, validators never swallow a rejection. NOT decided: effective value per value pair (argparse run time); derived Config properties. Also: the config file is evaluated in a fresh module and written after the merge point; Config properties return the configured value (D17)."),
  "C17": ("5 C17", "CFG dominance/order on Pidfile.create (validate first, write before rename, temp file in the same directory), create() outcome table by abstract evaluation, ownership guard before unlink, who-may-touch the pid-file path in the arbiter, start() order (pid file before sockets), errno decision table of validate()",
-         "Decides: create validates first (foreign live pid refuses, own pid untouched), the configured path only appears by rename of a fully written temp file in the same directory, unlink only when the file still holds this pid, the arbiter uses only Pidfile methods behind `is not None`, the pid file is claimed before sockets are created, validate == table A.7. NOT decided: crash at every system call; inter-instance races."),
+         "Decides: create validates first (foreign live pid refuses, own pid untouched), the configured path only appears by rename of a fully written temp file in the same directory, unlink only when the file still holds this pid, the arbiter uses only Pidfile methods behind `is not None`, the pid file is claimed before sockets are created, validate == table A.7. NOT decided: crash at every system call; inter-instance races. Also: Pidfile.create records the pid on every return (D18); reload re-creates the file."),
  "C18": ("5 C18", "decision table of Worker.__init__ (max_requests, jitter) and of each handle_request limit test by abstract evaluation; sibling agreement (one increment before the app call, test after increment, force_close when not alive); control-dependence of exits before resp.close() on the limit",
-         "Decides: limit = max_requests + randint(0, jitter) iff > 0 else never, each request counted exactly once before the app runs, the request that reaches the limit clears `alive` and is still answered, keep-alive capable workers close the connection, the worker leaves its loop and is replaced (shared rules). NOT decided: client-visible losslessness."),
+         "Decides: limit = max_requests + randint(0, jitter) iff > 0 else never, each request counted exactly once before the app runs, the request that reaches the limit clears `alive` and is still answered, keep-alive capable workers close the connection, the worker leaves its loop and is replaced (shared rules). NOT decided: client-visible losslessness. Also: a worker that is no longer alive closes the connection (evaluated) and does not accept between listeners (D16)."),
  "C19": ("5 C19", "call-site inventory of log.access (one per handler in the finally of the write try; one in handle_error under req is not None; Statsd delegates once); byte-accounting must-pass (every body send updates Response.sent); sanitiser check of the atoms wrapper (CR and LF neutralised for every str atom) and that the wrapped atoms are what is logged",
-         "Decides: exactly one record per request and per rejected request, nothing written after the record, b/B atoms read resp.sent which every body-send path updates, s reads resp.status, every str atom passes a CR/LF neutraliser before access_log.info. NOT decided: truthfulness on half-failed responses; third-party logger classes."),
+         "Decides: exactly one record per request and per rejected request, nothing written after the record, b/B atoms read resp.sent which every body-send path updates, s reads resp.status, every str atom passes a CR/LF neutraliser before access_log.info. NOT decided: truthfulness on half-failed responses; third-party logger classes. Also: the access record is the first statement of the finally clause of the write try."),
  "C20": ("5 C20", "CFG dominance (set_owner_process before load_wsgi/run), super()-chain must-pass for init_process overrides, who-may-call (identity syscalls only in set_owner_process, called only from Worker.init_process, reached only from the forked child of spawn_worker), order group-before-user, path-sensitive definite assignment, chown/unlink/bind/umask order",
-         "Decides: privileges are dropped with (cfg.uid, cfg.gid, initgroups) before any application code in every worker class and every generation (single spawn path), setgid/initgroups precede setuid on every path with all locals definitely assigned, no identity change elsewhere (the master keeps its identity), heartbeat file chowned before unlink, unix socket chowned after bind under the configured umask, validate_user/group yield ids. NOT decided: ids of live processes."),
+         "Decides: privileges are dropped with (cfg.uid, cfg.gid, initgroups) before any application code in every worker class and every generation (single spawn path), setgid/initgroups precede setuid on every path with all locals definitely assigned, no identity change elsewhere (the master keeps its identity), heartbeat file chowned before unlink, unix socket chowned after bind under the configured umask, validate_user/group yield ids. NOT decided: ids of live processes. Also: the primary group is set on every path with a gid, also with initgroups (D14); chown of socket/heartbeat file is unconditional unless both ids already match."),
 }
+
+
+NORMAL = (" All rules run on the tree after three semantics-preserving normal forms (expansion of helpers that are not in the frozen inventory of the"
+          " reference tree, expansion of local aliases of final attributes, folding of single-use temporaries), so extract-method / alias / temporary"
+          " refactorings do not change the verdict.")
 
 
 def main():
     checks = []
     for pid in sorted(P):
         ref, tech, text = P[pid]
+        tech = tech + NORMAL
         checks.append({
             "property_id": pid,
             "quick_cmd": "./bin/gverif check %s --tier quick" % pid,
